@@ -34,9 +34,12 @@ let n_of_tok s =
   else n_of_int (int_of_string s)
 
 (* a parsed operation: the model operations it expands to, and how many outputs are folded into one token *)
-type pop = One of op | Rep of op list
+type pop = One of op | Rep of op list | Fin   (* Fin: process exit, see harness "fin" *)
 
 let tag = ref 0
+(* a case that starts with the marker "cxx" goes through the C++ wrappers of mpt++/type_traits_wrap.cpp:
+   lookups by id are type_traits::get(int) = OpWrapTraits (signed argument), "ln <name> d" uses the default length *)
+let cxx = ref false
 let mk_traits size flags =
   let t = { ti_size = n_of_int size; ti_init = (flags land 1 <> 0); ti_fini = (flags land 2 <> 0);
             ti_tag = Some (n_of_int !tag) } in
@@ -44,6 +47,9 @@ let mk_traits size flags =
 
 let rec parse toks = match toks with
   | [] -> []
+  | "cxx" :: r -> cxx := true; parse r
+  | "lt" :: i :: r when !cxx -> One (OpWrapTraits (z_of_int (int_of_tok i))) :: parse r
+  | "ln" :: n :: "d" :: r -> One (OpNamed (name_of_tok n, z_of_int (-1))) :: parse r
   | "ba" :: s :: r -> One (OpBasicAdd (n_of_int (int_of_tok s))) :: parse r
   | "ga" :: "null" :: r -> One (OpTypeAdd None) :: parse r
   | "ga" :: s :: f :: r ->
@@ -75,6 +81,7 @@ let rec parse toks = match toks with
   | "vt" :: f :: r -> One (OpFmtType (n_of_int (int_of_tok f))) :: parse r
   | "vc" :: t :: r -> One (OpFmtCode (z_of_int (int_of_tok t))) :: parse r
   | "sw" :: r -> One OpSweep :: parse r
+  | "fin" :: r -> Fin :: parse r
   | t :: _ -> failwith ("bad op " ^ t)
 
 let code_of_err e = match e with
@@ -173,16 +180,37 @@ let render show show_rep pops outs =
     | [] -> []
     | One _ :: r -> (match outs with o :: outs -> show o :: go r outs | [] -> ["<none>"])
     | Rep l :: r -> let (a, b) = take (List.length l) outs in show_rep a :: go r b
-  in String.concat " " (go pops outs)
+    | Fin :: _ -> []
+  in go pops outs
+
+(* a case is a sequence of process lives separated by "fin": every life starts from the fresh registry;
+   the token of "fin": nothing leaked, nothing freed twice, nothing foreign freed, statics reset, and how many
+   registered entries / chunks the clean-up releases (TypesModel.fini_counts of the state the life ended in);
+   the specification has no blocks: it only requires the first four fields *)
+let rec lives pops = match pops with
+  | [] -> [([], false)]
+  | Fin :: r -> ([], true) :: lives r
+  | p :: r -> (match lives r with (l, f) :: t -> (p :: l, f) :: t | [] -> [([p], false)])
+
+let ops_of pops = List.concat (List.map (fun p -> match p with One o -> [o] | Rep l -> l | Fin -> []) pops)
 
 let () =
   let ic = open_in Sys.argv.(1) in
   List.iter (fun line ->
     match split_ws line with
     | id :: toks ->
-      tag := 0;
+      tag := 0; cxx := false;
       let pops = parse toks in
-      let ops = List.concat (List.map (fun p -> match p with One o -> [o] | Rep l -> l) pops) in
-      Printf.printf "M %s %s\n" id (render show show_rep pops (run reg0 ops));
-      Printf.printf "S %s %s\n" id (render show_s show_rep_s pops (srun sreg0 ops))
+      let ls = lives pops in
+      let mtoks = List.concat (List.map (fun (l, fin) ->
+        let ops = ops_of l in
+        render show show_rep l (run reg0 ops) @
+        (if fin then
+           let ((ie, me), gc) = fini_counts (exec reg0 ops) in
+           [Printf.sprintf "X:0:0:0:1:%d:%d:%d" (int_of_nat ie) (int_of_nat me) (int_of_nat gc)]
+         else [])) ls) in
+      let stoks = List.concat (List.map (fun (l, fin) ->
+        render show_s show_rep_s l (srun sreg0 (ops_of l)) @ (if fin then ["X:0:0:0:1:*"] else [])) ls) in
+      Printf.printf "M %s %s\n" id (String.concat " " mtoks);
+      Printf.printf "S %s %s\n" id (String.concat " " stoks)
     | _ -> ()) (read_lines ic)
